@@ -356,7 +356,7 @@ pub fn oracle_c02(scn: &E2Scn, d: &D2, stats: &mut Stats) -> Vec<Violation> {
             if let Some((first_lb, first_seq)) = lb {
                 let (lo, hi) = throttles_during(first_seq, *dseq);
                 stats.hit("probe:non-urgent-batch-judged");
-                if *dt < first_lb + lo {
+                if *dt < first_lb.saturating_add(lo) {
                     vs.push(Violation::new(
                         "batch-before-window-elapsed",
                         "",
@@ -381,7 +381,7 @@ pub fn oracle_c02(scn: &E2Scn, d: &D2, stats: &mut Stats) -> Vec<Violation> {
                         format!("batch {n} {ids:?} delivered at t={dt}, later than first receive (t<={ub_first}) + throttle ({hi} ms)"),
                     ));
                 }
-                if *dt == first_lb + lo && lo > 0 {
+                if *dt == first_lb.saturating_add(lo) && lo > 0 {
                     stats.hit("probe:batch-exactly-at-window-end");
                 }
             }
@@ -747,6 +747,27 @@ pub fn gen_storm(rng: &mut Rng) -> E2Scn {
     }
 }
 
+/// A throttle that never ends (`Duration::MAX`: "only act on urgent events"), set at start-up or at run time: nothing is
+/// delivered until an urgent event flushes the set.
+pub fn gen_endless_window(rng: &mut Rng) -> E2Scn {
+    let at_start = rng.chance(1, 2);
+    let mut steps = Vec::new();
+    if !at_start {
+        steps.push(PStep { gap: 10, kind: PKind::Send { id: 5, prio: 1, empty: false } });
+        steps.push(PStep { gap: 2000, kind: PKind::SetThrottle { ms: u64::MAX } });
+    }
+    for i in 0..rng.range(1, 5) {
+        steps.push(PStep { gap: *rng.pick(&[1u64, 100, 3000]), kind: PKind::Send { id: 10 + i as u32, prio: *rng.pick(&[0u8, 1, 2]), empty: false } });
+    }
+    // the urgent event that lets everything through
+    steps.push(PStep { gap: *rng.pick(&[1u64, 5000, 60_000]), kind: PKind::Send { id: 90, prio: 3, empty: false } });
+    if rng.chance(1, 2) {
+        steps.push(PStep { gap: 1000, kind: PKind::Send { id: 91, prio: 1, empty: false } });
+        steps.push(PStep { gap: 1000, kind: PKind::Send { id: 92, prio: 3, empty: false } });
+    }
+    E2Scn { family: "endless-window".into(), throttle: if at_start { u64::MAX } else { 50 }, producers: vec![steps], probe: false, ..Default::default() }
+}
+
 pub fn gen_debounce(rng: &mut Rng) -> E2Scn {
     let throttle = *rng.pick(&[0u64, 1, 10, 50]);
     let mut steps = Vec::new();
@@ -1087,7 +1108,7 @@ e2_check!(
     "C01",
     200_000,
     40_000_000,
-    |rng: &mut Rng, idx: u64| if idx % 4 == 3 { gen_debounce(rng) } else if idx % 16 == 6 { gen_filter_replaced(rng) } else if idx % 200 == 9 { gen_storm(rng) } else { gen_events_opt(rng, idx % 2 == 1, true) },
+    |rng: &mut Rng, idx: u64| if idx % 4 == 3 { gen_debounce(rng) } else if idx % 16 == 6 { gen_filter_replaced(rng) } else if idx % 200 == 9 { gen_storm(rng) } else if idx % 100 == 13 { gen_endless_window(rng) } else { gen_events_opt(rng, idx % 2 == 1, true) },
     |scn: &E2Scn, d: &D2, _out: &RunOut, stats: &mut Stats| oracle_c01(scn, d, stats),
     vec![
         "probe:urgent-event",
@@ -1109,7 +1130,7 @@ e2_check!(
     "C02",
     200_000,
     40_000_000,
-    |rng: &mut Rng, idx: u64| if idx % 200 == 8 { gen_storm(rng) } else if idx % 2 == 0 { gen_debounce(rng) } else { gen_events(rng, idx % 4 == 1) },
+    |rng: &mut Rng, idx: u64| if idx % 200 == 8 { gen_storm(rng) } else if idx % 50 == 6 { gen_endless_window(rng) } else if idx % 2 == 0 { gen_debounce(rng) } else { gen_events(rng, idx % 4 == 1) },
     |scn: &E2Scn, d: &D2, _out: &RunOut, stats: &mut Stats| oracle_c02(scn, d, stats),
     vec![
         "probe:non-urgent-batch-judged",
@@ -1646,7 +1667,14 @@ pub fn gen_quit(rng: &mut Rng) -> E2Scn {
         };
         let self_exit = if rng.chance(1, 4) { Some(*rng.pick(&[0u64, 5, 50, 300])) } else { None };
         let grandchildren = if rng.chance(1, 3) { rng.range(1, 2) as u8 } else { 0 };
-        let child = ChildSpec { self_exit, code: 0, on_signal: react, grandchildren, ..Default::default() };
+        let mut child = ChildSpec { self_exit, code: 0, on_signal: react, grandchildren, ..Default::default() };
+        // operations on the process that fail: the force-kill (once), wait() in mid-run
+        if rng.chance(1, 8) {
+            child.fail_kill = true;
+        }
+        if rng.chance(1, 10) {
+            child.wait_fail_after = Some(*rng.pick(&[1u64, 20, 300]));
+        }
         // job state at the moment of the quit
         let mut ops: Vec<Op> = Vec::new();
         let mut later: Vec<(u64, Op)> = Vec::new();
